@@ -140,7 +140,9 @@ fn build_symbol(s: &Session, sym: usize, share_id: u32, current_share: u32, k: u
                     b.nest("b", &undecodable);
                 }
                 _ => {
-                    b.nest("a", &proto::synchronize(p, sid, p.user_id));
+                    // a PDU the client decodes, but one that no state of the handshake waits for: were it a synchronize, a
+                    // client waiting for the server's synchronize would rightly take the payload's first PDU for it
+                    b.nest("a", &proto::control(p, sid, 3, 0, 0));
                     b.nest("b", &undecodable);
                     b.nest("c", &proto::deactivate_all_with(p, sid, desc));
                 }
